@@ -146,12 +146,26 @@ func (x *Exec) newState() *State {
 	return s
 }
 
+// newRef allocates the next reference. Allocation is dense (no reference is
+// skipped) and every object carries a dynamic type tag (0: not a struct of
+// the verified packages), so that "every allocated T" never ranges over
+// anything but objects that were allocated as a T.
 func (s *State) newRef(hint string) Term {
 	r := s.fresh(hint, "Int")
-	s.assume(app("Bool", ">", r, s.alloc))
+	s.assume(mkEq(r, add(s.alloc, intLit(1))))
 	s.alloc = r
 	s.freshRefs[r.S] = true
 	return r
+}
+
+func (s *State) tagRef(r Term, elem types.Type) {
+	if elem != nil {
+		if tf, ok := s.w.typeTagFact(r, elem); ok {
+			s.assume(tf)
+			return
+		}
+	}
+	s.assume(mkEq(app("Int", "typetag", r), intLit(0)))
 }
 
 // wellTyped returns the facts that any value of Go type t satisfies.
@@ -168,6 +182,9 @@ func (s *State) wellTyped(v Term, t types.Type) Term {
 		)
 	case *types.Pointer:
 		base := mkAnd(app("Bool", ">=", v, intLit(0)), app("Bool", "<=", v, s.alloc))
+		if tf, ok := s.w.typeTagFact(v, u.Elem()); ok {
+			base = mkAnd(base, mkImp(mkNot(mkEq(v, intLit(0))), tf))
+		}
 		if tis := s.w.typeInvs[typeKey(u.Elem())]; len(tis) > 0 && !s.noTypeInv {
 			var cs []Term
 			for _, ti := range tis {
@@ -715,6 +732,7 @@ func (x *Exec) step(s *State, in ssa.Instruction) bool {
 	case *ssa.Alloc:
 		elem := v.Type().(*types.Pointer).Elem()
 		r := s.newRef("new." + v.Name())
+		s.tagRef(r, elem)
 		if len(w.typeInvs[typeKey(elem)]) > 0 {
 			s.tiAllocs = append(append([]tiAlloc{}, s.tiAllocs...), tiAlloc{r, typeKey(elem)})
 		}
@@ -793,6 +811,7 @@ func (x *Exec) step(s *State, in ssa.Instruction) bool {
 		return adv()
 	case *ssa.MakeMap:
 		r := s.newRef("map." + v.Name())
+		s.tagRef(r, nil)
 		mt := v.Type().Underlying().(*types.Map)
 		dom, val := w.mapArrays(mt)
 		ks := w.sortOf(mt.Key())
@@ -808,6 +827,7 @@ func (x *Exec) step(s *State, in ssa.Instruction) bool {
 		cp := s.term(v.Cap)
 		s.goal(x.siteName(fr, "makeslice", in), "safety", []string{"C14"}, mkAnd(le(intLit(0), ln), le(ln, cp)), x.pos(in), "")
 		r := s.newRef("mks." + v.Name())
+		s.tagRef(r, nil)
 		et := v.Type().Underlying().(*types.Slice).Elem()
 		arr := w.elemArray(et)
 		zs := w.zeroOf(et)
@@ -844,6 +864,7 @@ func (x *Exec) step(s *State, in ssa.Instruction) bool {
 	case *ssa.MakeClosure:
 		fn := v.Fn.(*ssa.Function)
 		r := s.newRef("closure." + fn.Name())
+		s.tagRef(r, nil)
 		cv := &ClosureVal{ref: r, fn: fn}
 		for _, b := range v.Bindings {
 			cv.bindings = append(cv.bindings, s.get(b))
@@ -1269,6 +1290,10 @@ func (w *World) ifaceTest(t Term, at types.Type) Term {
 	var alts []Term
 	for _, c := range w.implsOf(it) {
 		alts = append(alts, w.isCon(c, t))
+	}
+	if w.isSealed(at) {
+		// a sealed interface (unexported method) has no implementations outside dig
+		return mkOr(alts...)
 	}
 	// opaque external dynamic types may or may not implement it
 	pred := "ext.impl." + typeKey(at)
